@@ -1,3 +1,4 @@
+import EinoV.Spec.WorkflowDefWF
 /-
   Oracle for the Workflow case family of C02 (reached through `Oracle/C02.lean`'s
   `handleKind "workflow"`).
@@ -174,6 +175,7 @@ def handle (c : Json) : JE Json := do
     ("wf", Json.bool (Engine.DagRun.dagWFb r)),
     ("wf2", Json.bool (Engine.DagRun.dagWF2b r)),
     ("wf3", Json.bool (Engine.DagRun.dagWF3b r)),
+    ("gwf", Json.bool (Engine.DagRun.workflowDefWFb flatOps w)),
     ("possible", J.mkArr (ex.tasks.map fun t => Json.mkObj [("k", Json.str t.1), ("in", Json.str t.2)]))])
 
 end EinoV.Oracle.C02Workflow
